@@ -873,10 +873,16 @@ func (d decoder) https(b []byte) (HTTPS, error) {
 		}
 		switch key {
 		case 0: // mandatory keys
+			if value.Empty() || len(value)%2 != 0 {
+				return result, ErrDecodeError
+			}
 		case 1: // alpn
+			if value.Empty() {
+				return result, ErrDecodeError
+			}
 			for !value.Empty() {
 				var proto cryptobyte.String
-				if !value.ReadUint8LengthPrefixed(&proto) {
+				if !value.ReadUint8LengthPrefixed(&proto) || proto.Empty() {
 					return result, ErrDecodeError
 				}
 				result.ALPN = append(result.ALPN, string(proto))
@@ -891,6 +897,9 @@ func (d decoder) https(b []byte) (HTTPS, error) {
 				return result, ErrDecodeError
 			}
 		case 4: // ipv4hint
+			if value.Empty() {
+				return result, ErrDecodeError
+			}
 			for !value.Empty() {
 				var ip []byte
 				if !value.ReadBytes(&ip, 4) {
@@ -901,6 +910,9 @@ func (d decoder) https(b []byte) (HTTPS, error) {
 		case 5: // ECH
 			result.ECH = slices.Clip(value)
 		case 6: // ipv6hint
+			if value.Empty() {
+				return result, ErrDecodeError
+			}
 			for !value.Empty() {
 				var ip []byte
 				if !value.ReadBytes(&ip, 16) {
